@@ -76,6 +76,45 @@ Proof.
     destruct (su_password su); [discriminate At | discriminate Epw].
 Qed.
 
+
+(* ---------- the accessors behind the ten API strings ---------- *)
+Lemma api_parts dbg u l : api_of_model dbg u = Some l ->
+  exists pr un pw h hn po pa se ha,
+    username dbg u = Some un /\ q_password dbg u = Some pw /\ q_port dbg u = Some po
+    /\ l = [q_href u; pr; un; pw; h; hn; po; pa; se; ha].
+Proof.
+  unfold api_of_model, q_username. intros H.
+  repeat match type of H with bindo ?x _ = Some _ => destruct x eqn:?; cbn [bindo] in H; [|discriminate H] end.
+  injection H as <-. do 9 eexists. repeat split; reflexivity.
+Qed.
+
+Lemma dec_digits_ne fuel : forall n acc, acc <> [] -> dec_digits fuel n acc <> [].
+Proof.
+  induction fuel as [|f IH]; intros n acc H; cbn [dec_digits]; [exact H|].
+  destruct (n <? 10); [discriminate | apply IH; discriminate].
+Qed.
+
+Lemma serialize_integer_ne p : serialize_integer p <> [].
+Proof. unfold serialize_integer. cbn [dec_digits]. destruct (p <? 10); [discriminate | apply dec_digits_ne; discriminate]. Qed.
+
+Definition nilb (l : list N) : bool := match l with [] => true | _ => false end.
+
+(* the three texts that the code inspects before it accepts an empty host *)
+Lemma corr_cred_port_texts dbg shs u su : corr dbg shs u su ->
+  exists po un pw, q_port dbg u = Some po /\ username dbg u = Some un /\ q_password dbg u = Some pw
+    /\ negb (nilb po) || negb (nilb un) || negb (nilb pw) = includes_credentials su || opt_is_some (su_port su).
+Proof.
+  intros C. pose proof (corr_api dbg shs u su C) as A. change (model_api dbg u) with (api_of_model dbg u) in A.
+  destruct (api_parts dbg u _ A) as (pr & un & pw & h & hn & po & pa & se & ha & E1 & E2 & E3 & El).
+  unfold spec_api_list in El. inversion El; subst.
+  exists (get_port su), (get_username su), (get_password su). split; [exact E3|]. split; [exact E1|]. split; [exact E2|].
+  unfold get_port, get_username, get_password, includes_credentials.
+  destruct (su_port su) as [p|]; cbn [opt_is_some nilb negb orb].
+  - pose proof (serialize_integer_ne p) as Hne. destruct (serialize_integer p); [contradiction|].
+    cbn [nilb negb orb]. rewrite orb_true_r. reflexivity.
+  - rewrite orb_false_r. destruct (su_username su); destruct (su_password su); reflexivity.
+Qed.
+
 Section Hostname.
 Variable dbg : bool.
 Variable hp ho : list N -> result host.
@@ -155,6 +194,120 @@ Proof.
     rewrite (is_opaque_by_path u' _ W' Ept'), Ha'. cbn [negb andb].
     unfold has_opaque_path in *. cbn [Whatwg.set_host su_path]. symmetry. exact Hop.
   - exact (co_uclean _ _ _ _ C).
+Qed.
+
+Theorem hostname_step u su v : host_fns_ok hp ho hd shp shs -> corr u su ->
+  known_c07 u QHostname v = 0 ->
+  exists u' su', option_map fst (q_set_hostname dbg hp ho hd u v) = Some u' /\ spec_step shp QHostname su v = Some su'
+    /\ corr u' su'.
+Proof.
+  intros HF C Hk. pose proof (co_wf _ _ _ _ C) as W.
+  pose proof (cannot_be_a_base_eval u W) as Ecb.
+  change (negb (byte_eqb (ser u) (scheme_end u + 1) 47)) with (is_opaque_b u) in Ecb.
+  rewrite (co_opaque _ _ _ _ C) in Ecb.
+  unfold spec_step. cbn [setter_of_q].
+  destruct (has_opaque_path su) eqn:Hop.
+  { unfold q_set_hostname. rewrite Ecb. cbn [bindo option_map fst spec_set]. rewrite Hop.
+    exists u, su. split; [reflexivity|]. split; [reflexivity | exact C]. }
+  (* outside Known_C07: not a file URL, no "//" path without host, no ':' outside brackets *)
+  unfold known_c07, u_cbb, u_scheme_or_empty, u_path_or_empty in Hk.
+  rewrite Ecb, (co_scheme _ _ _ _ C), (co_path _ _ _ _ C), orb_false_r in Hk.
+  destruct (list_eqb (su_scheme su) s_file) eqn:Ef; [discriminate Hk|].
+  destruct (negb (has_host u) && starts_with s_ss (serialize_path su)) eqn:E3; [discriminate Hk|].
+  destruct (host_colon (no_tnl v) (st_is_special (scheme_type_of (su_scheme su)))) eqn:E2; [discriminate Hk|]. clear Hk.
+  change s_file with str_file in Ef.
+  assert (has_host u = false -> starts_with s_ss (serialize_path su) = false) as Hk3.
+  { intros Hh. rewrite Hh in E3. exact E3. }
+  rewrite (spec_hostname_closed shp su v Ef), Hop.
+  pose proof (special_schemes_are_the_standards (su_scheme su)) as Esp. fold (is_special su) in Esp.
+  set (sp := is_special su) in *.
+  pose proof (host_scan_fst sp v false []) as Hfst. cbn [rev] in Hfst.
+  pose proof (hscan_colon sp (ntnl v) false []) as Hcol.
+  unfold host_colon in E2. rewrite Esp in E2. change (no_tnl v) with (ntnl v) in E2. rewrite E2 in Hcol.
+  change (notnl v) with (ntnl v).
+  destruct (hscan sp false [] (ntnl v)) as [buf flag] eqn:Ehs. cbn [fst snd] in Hfst, Hcol. subst flag.
+  cbn [hostname_decide]. fold sp.
+  (* the model: up to the host parser *)
+  assert (st_is_file (scheme_type_of (su_scheme su)) = false) as Enf by (rewrite file_test_same; exact Ef).
+  assert (scheme_type_eqb (scheme_type_of (su_scheme su)) STFile = false
+          /\ scheme_type_eqb (scheme_type_of (su_scheme su)) STSpecialNotFile = sp) as [Enf' Esnf].
+  { rewrite <- Esp. destruct (scheme_type_of (su_scheme su)); [discriminate Enf | split; reflexivity | split; reflexivity]. }
+  unfold q_set_hostname. rewrite Ecb. cbn [bindo]. rewrite (co_scheme _ _ _ _ C). cbn [bindo].
+  rewrite Enf'. cbn [andb]. unfold parse_host, input_new_no_trim. rewrite Enf, Esp, Esnf.
+  destruct (host_scan sp false [] v) as [h rem] eqn:Escan. cbn [fst] in Hfst. subst h.
+  replace (if negb sp then host <~ of_result (ho buf);; POk (host, rem) else host <~ of_result (hp buf);; POk (host, rem))
+    with (host <~ of_result (if negb sp then ho buf else hp buf);; POk (host, rem)) by (destruct sp; reflexivity).
+  assert (match (if negb sp then ho buf else hp buf), host_parsing shp (negb sp) buf with
+          | Ok h, Some sh => hd h = shs sh /\ host_disp_ok hd h
+                             /\ (h = HDomain [] <-> sh = SEmpty) /\ (h = HDomain [] <-> buf = [])
+          | Err _, None => True
+          | _, _ => False
+          end) as K1.
+  { destruct HF as [H0 H1]. destruct sp; [apply H0 | apply H1]. }
+  destruct buf as [|b0 br].
+  - (* empty host text *)
+    change (C01_EqAuthSpec.is_nil (@nil N)) with true. rewrite andb_true_r. cbn [andb].
+    destruct sp; cbn [negb] in *.
+    { cbn [pres_ok bindo option_map fst]. exists u, su. split; [reflexivity|]. split; [reflexivity | exact C]. }
+    destruct (ho []) as [hh|e] eqn:Eho; destruct (host_parsing shp true []) as [sh|] eqn:Ehp; try contradiction.
+    + destruct K1 as (Kt & Kd & Ke & Ks).
+      assert (hh = HDomain []) as -> by (apply Ks; reflexivity).
+      assert (sh = SEmpty) as -> by (apply Ke; reflexivity).
+      cbn [of_result pbind pres_ok bindo].
+      destruct (corr_cred_port_texts dbg shs u su C) as (po & un & pw & Epo & Eun & Epw & Erej).
+      rewrite Epo, Eun, Epw. cbn [bindo orb].
+      change (match po with [] => true | _ => false end) with (nilb po).
+      change (match un with [] => true | _ => false end) with (nilb un).
+      change (match pw with [] => true | _ => false end) with (nilb pw).
+      rewrite Erej.
+      destruct (includes_credentials su || opt_is_some (su_port su)) eqn:Ecp.
+      * cbn [option_map fst]. exists u, su. split; [reflexivity|]. split; [reflexivity | exact C].
+      * destruct (corr_set_host u su (HDomain []) SEmpty C Hop Kt Kd Ke) as (u' & E & C'); [|exact Hk3|].
+        { intros _. apply orb_false_iff in Ecp. destruct Ecp as [_ B]. destruct (su_port su); [discriminate B | reflexivity]. }
+        rewrite E. cbn [bindo option_map fst]. exists u'. eexists. split; [reflexivity|]. split; [reflexivity | exact C'].
+    + cbn [of_result pbind pres_ok bindo option_map fst]. exists u, su. split; [reflexivity|]. split; [|exact C].
+      destruct (includes_credentials su || opt_is_some (su_port su)); reflexivity.
+  - (* a host text *)
+    change (C01_EqAuthSpec.is_nil (b0 :: br)) with false. rewrite !andb_false_r. cbn [andb].
+    destruct (if negb sp then ho (b0 :: br) else hp (b0 :: br)) as [hh|e] eqn:Eho;
+      destruct (host_parsing shp (negb sp) (b0 :: br)) as [sh|] eqn:Ehp; try contradiction.
+    + destruct K1 as (Kt & Kd & Ke & Ks).
+      assert (hh <> HDomain []) as Hne by (intros X; apply Ks in X; discriminate X).
+      cbn [of_result pbind pres_ok bindo].
+      assert ((match hh with
+               | HDomain [] =>
+                   p <- q_port dbg u;; un <- username dbg u;; pw <- q_password dbg u;;
+                   Some (sp || negb match p with [] => true | _ :: _ => false end
+                            || negb match un with [] => true | _ :: _ => false end
+                            || negb match pw with [] => true | _ :: _ => false end)
+               | _ => Some false end) = Some false) as Erej.
+      { destruct hh as [[|d0 dr]| |]; [exfalso; apply Hne; reflexivity | reflexivity ..]. }
+      rewrite Erej. cbn [bindo].
+      destruct (corr_set_host u su hh sh C Hop Kt Kd Ke) as (u' & E & C'); [|exact Hk3|].
+      { intros X. exfalso. exact (Hne X). }
+      rewrite E. cbn [bindo option_map fst]. exists u'. eexists. split; [reflexivity|]. split; [reflexivity | exact C'].
+    + cbn [of_result pbind pres_ok bindo option_map fst]. exists u, su. split; [reflexivity|]. split; [reflexivity | exact C].
+Qed.
+
+(* with the invariants *)
+Theorem hostname_stepS u su v : host_fns_ok hp ho hd shp shs -> corr u su -> sane su ->
+  known_c07 u QHostname v = 0 ->
+  exists u' su', option_map fst (q_set_hostname dbg hp ho hd u v) = Some u' /\ spec_step shp QHostname su v = Some su'
+    /\ corr u' su' /\ sane su'.
+Proof.
+  intros HF C S Hk. destruct (hostname_step u su v HF C Hk) as (u' & su' & A & B & C').
+  exists u', su'. split; [exact A|]. split; [exact B|]. split; [exact C'|].
+  unfold spec_step in B. cbn [setter_of_q] in B.
+  destruct (spec_set shp SetHostname su v) as [x|] eqn:E; [|discriminate B]. injection B as <-.
+  destruct (has_opaque_path su) eqn:Hop.
+  { cbn [spec_set] in E. rewrite Hop in E. injection E as <-. exact S. }
+  (* not a file URL: class 4 *)
+  pose proof (co_wf _ _ _ _ C) as W. pose proof (cannot_be_a_base_eval u W) as Ecb.
+  change (negb (byte_eqb (ser u) (scheme_end u + 1) 47)) with (is_opaque_b u) in Ecb.
+  rewrite (co_opaque _ _ _ _ C), Hop in Ecb.
+  unfold known_c07, u_cbb, u_scheme_or_empty in Hk. rewrite Ecb, (co_scheme _ _ _ _ C) in Hk.
+  destruct (list_eqb (su_scheme su) s_file) eqn:Ef; [discriminate Hk|]. change s_file with str_file in Ef.
+  exact (spec_hostname_sane shp su v x (host_fns_empty_only hp ho hd shp shs HF) Ef S E).
 Qed.
 
 End Hostname.
